@@ -221,9 +221,10 @@ func genRelayNeg(s *src, o *out) {
 	}
 	rs := s.fn("TrzszRelay.resetToStandby").Body.List
 	guard := "if !r.relayStatus.CompareAndSwap(status, kRelayStandBy) { return }"
-	if len(rs) == 0 || s.text(rs[0]) != guard {
-		die("relayneg: resetToStandby no longer starts with the CompareAndSwap guard")
-	}
+	// not fatal: the shape is reported as a constant and pinned by Proofs/RelayNeg.v
+	// (reset_guard_src_ok), so that a reset without the expected-state guard breaks that lemma
+	// -- and leaves the models translatable and executable for the search engines (C13)
+	o.raw("Definition relayneg_reset_guard_is_cas : bool := %v.\n", len(rs) > 0 && s.text(rs[0]) == guard)
 	o.raw("Definition relayneg_reset_clears_tunnel_flag : bool := %v.\n", top("TrzszRelay.resetToStandby", "r.tunnelConnected.Store(false)"))
 	o.raw("Definition relayneg_handshake_sets_tunnel_flag : bool := %v.\n", top("TrzszRelay.handshake", "r.tunnelConnected.Store(action.TunnelConnected)"))
 	cond := ""
@@ -236,6 +237,132 @@ func genRelayNeg(s *src, o *out) {
 		die("relayneg: addHandshakeBuffer has no if statement")
 	}
 	o.defBytes("relayneg_parking_rule_src", cond)
+	// line framing of what the relay itself sends and reads during the handshake: the four
+	// rules (source text, pinned in Proofs/RelayNeg.v) and the two terminators
+	ifCond := func(fn string) string {
+		for _, st := range s.fn(fn).Body.List {
+			if is, ok := st.(*ast.IfStmt); ok && is.Init == nil {
+				return s.text(is.Cond)
+			}
+		}
+		die("relayneg: %s has no top-level if", fn)
+		return ""
+	}
+	o.defBytes("relayneg_to_client_rule_src", ifCond("TrzszRelay.sendStringToClient"))
+	o.defBytes("relayneg_to_server_rule_src", ifCond("TrzszRelay.sendStringToServer"))
+	o.defBytes("relayneg_from_client_rule_src", ifCond("TrzszRelay.recvStringFromClient"))
+	o.defBytes("relayneg_from_server_rule_src", ifCond("TrzszRelay.recvStringFromServer"))
+	for _, fn := range [][2]string{{"TrzszRelay.sendStringToClient", "relayneg_to_client"}, {"TrzszRelay.sendStringToServer", "relayneg_to_server"}} {
+		var plain, win string
+		havePlain, haveWin := false, false
+		ast.Inspect(s.fn(fn[0]).Body, func(n ast.Node) bool {
+			if a, ok := n.(*ast.AssignStmt); ok && len(a.Lhs) == 1 && s.text(a.Lhs[0]) == "newline" && len(a.Rhs) == 1 {
+				if a.Tok == token.DEFINE {
+					plain, havePlain = s.evalString(a.Rhs[0]), true
+				} else {
+					win, haveWin = s.evalString(a.Rhs[0]), true
+				}
+			}
+			return true
+		})
+		if !havePlain || !haveWin {
+			die("relayneg: %s no longer chooses between two newline literals", fn[0])
+		}
+		o.defBytes(fn[1]+"_nl", plain)
+		o.defBytes(fn[1]+"_win_nl", win)
+	}
+	// the client (trzszTransfer.sendAction): the newline it announces, by default and when it
+	// frames for Windows, and the terminator it then uses for its own lines
+	{
+		m := lit("trzszTransfer.sendAction", "transferAction")
+		if m["Newline"] == nil {
+			die("relayneg: sendAction's transferAction literal has no Newline")
+		}
+		o.defBytes("relayneg_client_act_nl", s.evalString(m["Newline"]))
+		var actWin, lineWin string
+		ast.Inspect(s.fn("trzszTransfer.sendAction").Body, func(n ast.Node) bool {
+			if a, ok := n.(*ast.AssignStmt); ok && len(a.Lhs) == 1 && len(a.Rhs) == 1 {
+				switch s.text(a.Lhs[0]) {
+				case "action.Newline":
+					actWin = s.evalString(a.Rhs[0])
+				case "t.transferConfig.Newline":
+					if v := s.evalString(a.Rhs[0]); v != "\n" {
+						lineWin = v
+					}
+				}
+			}
+			return true
+		})
+		if actWin == "" || lineWin == "" {
+			die("relayneg: sendAction no longer sets the Windows newline of the action / of its own lines")
+		}
+		o.defBytes("relayneg_client_act_win_nl", actWin)
+		o.defBytes("relayneg_client_line_win_nl", lineWin)
+		o.defBytes("relayneg_client_windows_rule_src", func() string {
+			out := ""
+			for _, st := range s.fn("trzszTransfer.sendAction").Body.List {
+				if is, ok := st.(*ast.IfStmt); ok && strings.Contains(s.text(is.Body), "action.Newline") {
+					out = s.text(is.Cond)
+				}
+			}
+			if out == "" {
+				die("relayneg: sendAction: the Windows branch was not found")
+			}
+			return out
+		}())
+		rd := ""
+		for _, st := range s.fn("trzszTransfer.recvLine").Body.List {
+			if is, ok := st.(*ast.IfStmt); ok && strings.Contains(s.text(is.Body), "readLineOnWindows") {
+				rd = s.text(is.Cond)
+			}
+		}
+		if rd == "" {
+			die("relayneg: recvLine: the Windows reader branch was not found")
+		}
+		o.defBytes("relayneg_client_reader_rule_src", rd)
+	}
+	// the order in which handshake() reads, updates the relay's framing state and writes
+	tags := map[string]string{
+		"confirm := false":                            "",
+		"var err error = nil":                         "",
+		"action, err := r.recvAction()":               "recvAction",
+		"r.tunnelConnected.Store(action.TunnelConnected)": "setTunnelConnected",
+		"r.clientIsWindows = action.Newline == \"!\\n\"":   "setClientIsWindows",
+		"config, err := r.recvConfig()":               "recvConfig",
+		"confirm = true":                              "confirmed",
+	}
+	var order []string
+	for _, st := range s.fn("TrzszRelay.handshake").Body.List {
+		txt := s.text(st)
+		if tag, ok := tags[txt]; ok {
+			if tag != "" {
+				order = append(order, tag)
+			}
+			continue
+		}
+		switch {
+		case strings.HasPrefix(txt, "defer "):
+		case strings.HasPrefix(txt, "if err != nil {"):
+			order = append(order, "failed?")
+		case strings.HasPrefix(txt, "if !action.TunnelConnected {"):
+			order = append(order, "binaryOff")
+		case strings.HasPrefix(txt, "if action.Protocol > kProtocolVersion {"):
+			order = append(order, "clampProtocol")
+		case strings.HasPrefix(txt, "if e := r.sendAction(action); e != nil {"):
+			order = append(order, "sendAction")
+		case strings.HasPrefix(txt, "if !action.Confirm {"):
+			order = append(order, "refused?")
+		case strings.HasPrefix(txt, "if r.tmuxMode == tmuxNormalMode {"):
+			order = append(order, "junk")
+		case strings.HasPrefix(txt, "if config.TmuxPaneColumns <= 0"):
+			order = append(order, "paneWidth")
+		case strings.HasPrefix(txt, "if e := r.sendConfig(config); e != nil {"):
+			order = append(order, "sendConfig")
+		default:
+			order = append(order, "?"+txt)
+		}
+	}
+	o.defBytes("relayneg_handshake_order", strings.Join(order, " "))
 	o.raw("Definition relayneg_escape_table_exported_fields : N := %d.\n", exported)
 	o.raw("Definition relayneg_escape_table_has_marshaler : bool := %v.\n", hasMarshal)
 }
